@@ -28,14 +28,19 @@ func c07View(name, field, typ string) string {
 		"    )\n\n"
 }
 
-//verif:shard-quick 3 1
-//verif:shard-thorough 3 1
+//verif:shard-quick 6 2
+//verif:shard-thorough 6 2
 func Harness_C07_InferredViewTypes() {
 	n := nd.IntRange("views-with-an-untyped-transform", 1, 3)
+	// view names: v1, v2, v3 — or names that differ only in letter case
+	names := []string{"v1", "v2", "v3"}
+	if nd.Bool("names-differ-only-in-case") {
+		names = []string{"toApi", "ToApi", "TOAPI"}
+	}
 	text := "App:\n"
 	for i := 0; i < n; i++ {
 		tag := string(rune('1' + i))
-		text += c07View("v"+tag, "f"+tag, "M.T"+tag)
+		text += c07View(names[i], "f"+tag, "M.T"+tag)
 	}
 	if nd.Replaying() {
 		var first *sysl.Module
